@@ -58,7 +58,7 @@ impl Hasher for Rec {
 macro_rules! cmp_h {
     ($name:ident, $T:ty, $N:ty, $n:expr) => {
         #[kani::proof]
-        #[kani::unwind(12)]
+        #[kani::unwind(40)]
         fn $name() {
             let sa: [$T; $n] = kani::any();
             let sb: [$T; $n] = kani::any();
